@@ -121,6 +121,11 @@ def render(v, ty, P):
         if not isinstance(v, (tuple, list)) or len(v) != len(ty.ts):
             raise Unsupported('value %r for a %d-tuple' % (v, len(ty.ts)))
         return '(' + ', '.join(render(x, t, P) for x, t in zip(v, ty.ts)) + ')'
+    if isinstance(ty, P.TSum):
+        try:
+            return 'inl (%s)' % render(v, ty.a, P)
+        except Unsupported:
+            return 'inr (%s)' % render(v, ty.b, P)
     raise Unsupported('no renderer for %r' % (ty,))
 
 
@@ -147,6 +152,9 @@ def comparator(ty, P):
         an = ', '.join('a%d_' % i for i in range(n)); bn = ', '.join('b%d_' % i for i in range(n))
         body = ' && '.join('%s a%d_ b%d_' % (comparator(t, P), i, i) for i, t in enumerate(ty.ts))
         return "(fun (a_ b_ : %s) => let '(%s) := a_ in let '(%s) := b_ in %s)" % (ty.coq(), an, bn, body)
+    if isinstance(ty, P.TSum):
+        return '(fun (a_ b_ : %s) => match a_, b_ with inl x_, inl y_ => %s x_ y_ | inr x_, inr y_ => %s x_ y_ | _, _ => false end)' % (
+            ty.coq(), comparator(ty.a, P), comparator(ty.b, P))
     raise Unsupported('no comparator for %r' % (ty,))
 
 
@@ -212,8 +220,36 @@ def _face_and_plane(rng):
     return [list(f.boundary), pl]
 
 
-# roots whose arguments must fit together (a vertex loop and the plane it lies in): generated jointly
-CUSTOM = {'Face3D_init_plane': _face_and_plane}
+def _line_through_sphere(kind):
+    def gen(rng):
+        from ladybug_geometry.geometry3d import LineSegment3D, Ray3D
+        sp = Bd.make(rng, 'Sphere')
+        if rng.random() < 0.3:
+            return [Bd.make(rng, 'LineSegment3D' if kind == 'seg' else 'Ray3D'), sp]        # mostly a miss
+        c, r = sp.center, sp.radius
+        q_ = Bd.P3((c.x + G.dy(rng.uniform(-0.6, 0.6) * r), c.y + G.dy(rng.uniform(-0.6, 0.6) * r), c.z + G.dy(rng.uniform(-0.5, 0.5) * r)))
+        v = Bd.V3(G.rvec3(rng, 1))
+        k = rng.choice([0.3, 1.5, 3.0]) * r / max(v.magnitude, 1e-9)        # end inside the ball, one crossing, or two crossings
+        p0 = Bd.P3((q_.x - v.x * k, q_.y - v.y * k, q_.z - v.z * k))
+        vv = Bd.V3((v.x * 2 * k, v.y * 2 * k, v.z * 2 * k))
+        return [(LineSegment3D if kind == 'seg' else Ray3D)(p0, vv), sp]
+    return gen
+
+
+def _plane_through_sphere(rng):
+    sp = Bd.make(rng, 'Sphere')
+    pl = Bd.plane(rng)
+    if rng.random() < 0.7:
+        c, r = sp.center, sp.radius
+        from ladybug_geometry.geometry3d import Plane
+        pl = Plane(pl.n, Bd.P3((c.x + G.dy(rng.uniform(-0.5, 0.5) * r), c.y + G.dy(rng.uniform(-0.5, 0.5) * r), c.z + G.dy(rng.uniform(-0.5, 0.5) * r))))
+    return [pl, sp]
+
+
+# roots whose arguments must fit together (a vertex loop and the plane it lies in; a line or plane that actually meets the sphere):
+# generated jointly
+CUSTOM = {'Face3D_init_plane': _face_and_plane, 'intersect_line3d_sphere_seg': _line_through_sphere('seg'),
+          'intersect_line3d_sphere_ray': _line_through_sphere('ray'), 'intersect_plane_sphere': _plane_through_sphere}
 # roots whose evaluation inside Coq is slow (rational blow-up through the square root): one input, thorough tier only
 SLOW = {'Face3D_init', 'Face3D_sub_rects_from_rect_ratio', 'Face3D_sub_rects_from_rect_dimensions'}
 
